@@ -228,6 +228,15 @@ def r17_1(ctx, rep, roles, sel):
                 for i, (src, filtered) in enumerate(want):
                     a = T.resolve_locals(eng, row.store, e[2][i + 1])
                     calls = [s[1] for s in T.subterms(a) if s[0] == "call"]
+                    if not (calls and calls[0].endswith("::collect")):
+                        # a pool filled by a for loop: `let mut pool = HashSet::new(); for id in <source> { if id != self { pool.insert(..) } }`
+                        okl, okfl = loop_built_pool(fx, eng, rows, a, src, [w for w, _ in want if w != src], filtered, address=(src == "Chitchat::seed_nodes"))
+                        rep.obligation(okl, "C17/R17.1/pool/%d" % (i + 1), "selection argument %d is %s" % (i + 1, sym.fmt(a)[:100]),
+                                       where(fx.fns[cs.caller], e[3][1]), sample="arg %d <- %s" % (i + 1, src))
+                        if filtered:
+                            rep.obligation(okfl, "C17/R17.1/self-filter/%d" % (i + 1), "pool %d (%s) does not exclude the node itself" % (i + 1, src),
+                                           where(fx.fns[cs.caller], e[3][1]), sample="%s filtered by != self" % src)
+                        continue
                     ok = any(c.endswith(src) for c in calls) and calls and calls[0].endswith("::collect")
                     others = [w for w, _ in want if w != src and any(c.endswith(w) for c in calls)]
                     rep.obligation(ok and not others, "C17/R17.1/pool/%d" % (i + 1), "selection argument %d is %s" % (i + 1, sym.fmt(a)[:100]),
@@ -243,6 +252,54 @@ def r17_1(ctx, rep, roles, sel):
                                        where(fx.fns[cs.caller], e[3][1]), sample="%s filtered by != self" % src)
         rep.obligation(done, "C17/R17.1/call-not-found", "selection call not found on any path of %s" % cs.caller, where(fx.fns[cs.caller]))
     rep.instance(len(callers))
+
+
+def loop_built_pool(fx, eng, rows, a, src, other_srcs, filtered, address):
+    """(pool ok, self-filter ok) for a pool that a for loop fills"""
+    fresh = None
+    for x in T.subterms(a):
+        if x[0] == "call" and not x[1].startswith(("havoc:", "fold:")) and sym.strip_all_generics(x[1]).split("::")[-1] in ("new", "default", "with_capacity") and "HashSet" in x[1]:
+            fresh = (x[1], x[3])
+    if fresh is None:
+        return False, False
+    ok_src, ok_f, n_ins = True, True, 0
+    skip_seen = False
+    for row in rows:
+        if row.exit != "backedge":
+            continue
+        ins = []
+        for e in row.calls():
+            if sym.strip_all_generics(e[1]).split("::")[-1] == "insert" and "HashSet" in e[1]:
+                recv = T.resolve_locals(eng, row.store, e[2][0])
+                if any(x[0] == "call" and (x[1], x[3]) == fresh for x in T.subterms(recv)):
+                    ins.append(e)
+        # the iteration this row belongs to: its last `next .. is Some`
+        nxt = [c for c in row.cond if c[0] == "variant" and c[3] and c[2] == "Some" and c[1][0] == "call" and c[1][1].endswith("::next")]
+        if not nxt:
+            continue
+        it = T.resolve_locals(eng, row.store, nxt[-1][1])
+        it_calls = [x[1] for x in T.subterms(it) if x[0] == "call"]
+        if not any(c.endswith(src) for c in it_calls):
+            continue        # a loop over another source
+        if any(c.endswith(w) for w in other_srcs for c in it_calls):
+            ok_src = False
+        selfc = None
+        for c in row.cond:
+            if c[0] == "truth" and c[1][0] == "op" and c[1][1] in ("Ne", "Eq"):
+                ops = [T.resolve_locals(eng, row.store, x) for x in (c[1][2], c[1][3])]
+                own = [o for o in ops if any(y[0] == "call" and y[1].endswith("self_chitchat_id") for y in T.subterms(o))]
+                if own and (not address or T.mentions_field(own[0], "types::ChitchatId", "gossip_advertise_addr")):
+                    selfc = (c[1][1] == "Ne") == c[2]      # True: the element differs from the node itself
+        if ins:
+            n_ins += 1
+            if filtered and selfc is not True:
+                ok_f = False
+        else:
+            if filtered and selfc is False:
+                skip_seen = True
+            else:
+                ok_src = False      # an element of the source is dropped for another reason
+    return (ok_src and n_ins > 0), (ok_f and n_ins > 0 and (skip_seen or not filtered))
 
 
 def closure_excludes_self(fx, eng, row, clo, address):
